@@ -4,6 +4,7 @@ package sim
 
 import (
 	"fmt"
+	"reflect"
 	"sync"
 	"unsafe"
 
@@ -61,11 +62,30 @@ func repoHook(kind int, site string, a interface{}, write bool) {
 			cmd = t.Yield(s, KBlocked, addr, w)
 		}
 	case restful.SimKindSend:
-		full := a.(func() bool)
-		t.Yield(s, KYield, 0, 0) // the window between a capacity check and the send
-		if full() {
+		// write=true: a blocking send follows and a() says "channel full"; write=false: a blocking
+		// receive follows and a() says "channel empty"
+		wouldBlock := a.(func() bool)
+		t.Yield(s, KYield, 0, 0) // the window between a capacity check and the operation
+		if wouldBlock() {
 			t.Yield(s, KWouldBlock, 0, 0)
 			panic(fmt.Sprint("sim: task resumed after would-block at ", site))
+		}
+	case 3:
+		// auto-inserted probe for a lock type the library's own hooks do not cover (sync.Mutex)
+		p, ok := a.(interface {
+			Identity() interface{}
+			TryNow() bool
+		})
+		if !ok {
+			return
+		}
+		addr := uint64(reflect.ValueOf(p.Identity()).Pointer())
+		cmd := t.Yield(s, KLockYield, addr, 1)
+		for {
+			if cmd != CmdForceBlock && p.TryNow() {
+				return
+			}
+			cmd = t.Yield(s, KBlocked, addr, 1)
 		}
 	}
 }
